@@ -260,6 +260,11 @@ theorem ni_dropLanelet_remove {E : Env} {P : List Id} {s : St} (l : Id) (hi : NI
     · cases h1'
     · exact hi.sub.subD l' t x ⟨st, h1', h2⟩
 
+theorem ni_dropLanelet_keep {E : Env} {P : List Id} {s : St} (l : Id) (hi : NI E P s) : NI E P (s.dropLanelet l) := by
+  have h := ni_dropLanelet_remove l hi
+  exact ⟨h.kindS, h.kindD, fun l' x hx => (List.mem_filter.mp (h.absentS l' x hx)).1,
+    fun l' t x hx => (List.mem_filter.mp (h.absentD l' t x hx)).1, h.sound, h.sub⟩
+
 theorem ni_dropLanelet_add {E : Env} {P : List Id} {s : St} (l : Id) (hi : NI E P s) :
     NI E (P ++ [l]) (s.dropLanelet l) := by
   have h := ni_dropLanelet_remove l hi
@@ -904,8 +909,15 @@ theorem ni_reopenPb {E : Env} {P : List Id} {s s' : St} (hi : NI E P s) (h : reo
 
 /-! ### every operation of a network-changing history -/
 
-theorem netInv_step {E : Env} {n n' : NSt} {op : NOp} (hi : NetInv E n) (h : nstep E false n op = .ok n') :
-    NetInv E n' := by
+/-- operations the invariant of network-changing histories speaks about: everything except an in-place edit of the assignment
+    attributes of an obstacle that is IN the scenario, or an edit to values that are not lookup answers (the registries are not
+    told about such an edit: afterwards a lanelet may list the obstacle for a lanelet its attributes no longer name) -/
+def NOp.Sane (E : Env) (n : NSt) : NOp → Prop
+  | .setFwd o f => o ∉ n.st.statics ∧ o ∉ n.st.dynamics ∧ Sound E f o
+  | _ => True
+
+theorem netInv_step {E : Env} {n n' : NSt} {op : NOp} (hi : NetInv E n) (hop : op.Sane E n)
+    (h : nstep E false n op = .ok n') : NetInv E n' := by
   cases op with
   | op o =>
     cases o with
@@ -944,19 +956,52 @@ theorem netInv_step {E : Env} {n n' : NSt} {op : NOp} (hi : NetInv E n) (h : nst
     split at h
     · cases h
     · cases h; exact ni_dropLanelet_add l hi
+  | clearLanelet l =>
+    simp only [nstep] at h
+    split at h
+    · cases h; exact ni_dropLanelet_keep l hi
+    · cases h
+  | query => simp only [nstep] at h; cases h; exact hi
+  | setFwd o f =>
+    simp only [nstep] at h
+    cases h
+    obtain ⟨h1, h2, h3⟩ := hop
+    refine ⟨hi.kindS, hi.kindD, hi.absentS, hi.absentD, ?_, ?_, ?_⟩
+    · intro x
+      show Sound E ((n.st.setFwd o f).fwd x) x
+      rw [setFwd_fwd]
+      split
+      · next e => rw [e]; exact h3
+      · exact hi.sound x
+    · intro l x hx
+      obtain ⟨g1, g2⟩ := hi.sub.subS l x hx
+      have hne : x ≠ o := fun e => h1 (e ▸ g1)
+      show x ∈ n.st.statics ∧ (RecShapeS ((n.st.setFwd o f).fwd x) l ∨ RecCenS ((n.st.setFwd o f).fwd x) l)
+      rw [setFwd_fwd, if_neg hne]; exact ⟨g1, g2⟩
+    · intro l t x hx
+      obtain ⟨g1, g2⟩ := hi.sub.subD l t x hx
+      have hne : x ≠ o := fun e => h2 (e ▸ g1)
+      show x ∈ n.st.dynamics ∧ (RecShapeD E ((n.st.setFwd o f).fwd x) x t l ∨ RecCenD E ((n.st.setFwd o f).fwd x) x t l)
+      rw [setFwd_fwd, if_neg hne]; exact ⟨g1, g2⟩
 
-theorem netInv_run {E : Env} : ∀ (ops : List NOp) (n n' : NSt), NetInv E n → nrun E false n ops = .ok n' → NetInv E n' := by
+/-- every operation of the history is sane in the state it is applied to -/
+def SaneRun (E : Env) : NSt → List NOp → Prop
+  | _, [] => True
+  | n, op :: ops => op.Sane E n ∧ ∀ n', nstep E false n op = .ok n' → SaneRun E n' ops
+
+theorem netInv_run {E : Env} : ∀ (ops : List NOp) (n n' : NSt), NetInv E n → SaneRun E n ops →
+    nrun E false n ops = .ok n' → NetInv E n' := by
   intro ops
   induction ops with
   | nil =>
-    intro n n' hi h
+    intro n n' hi _ h
     simp only [nrun, List.foldlM_nil, pure_ok] at h
     exact h ▸ hi
   | cons op ops ih =>
-    intro n n' hi h
+    intro n n' hi hs h
     simp only [nrun, List.foldlM_cons] at h
     obtain ⟨n1, h1, h2⟩ := bind_ok.mp h
-    exact ih n1 n' (netInv_step hi h1) h2
+    exact ih n1 n' (netInv_step hi hs.1 h1) (hs.2 n1 h1) h2
 
 /-- the scenario at the start: the lanelets `P0`, no obstacle added, obstacle objects constructed with sound lanelet ids -/
 theorem netInv_init {E : Env} (P0 : List Id) (preset : Id → Fwd) (hp : ∀ o, Sound E (preset o) o) :
